@@ -479,4 +479,27 @@ Definition expected_listener (s : list byte) : obs := expected_session false tru
 (* the adapter answers NMETHODS=0 with 05 FF and does not answer a bad request VER *)
 Definition expected_adapter (auth : option (list byte * list byte)) (s : list byte) : obs :=
   expected_session true false adapter_cmd_ok auth s.
+(* ========================================================================================== *)
+(* Part D — histories of relay operations                                                     *)
+(* ========================================================================================== *)
+(* One long-lived *UDPRelay serves many parseUDPHeader / buildUDPHeader calls (one receiveLoop goroutine per
+   session, handleDNSQuery, handlePacket).  In the model every result is a VALUE: the results of a history are the
+   results of its operations taken one by one, so a later operation cannot change an earlier result.  For the Go code
+   this is an assumption about slices (no shared / reused backing buffer); the harness checks it on the real code
+   ("seq" and "conc" cases: every retained result is compared after every later operation / after a barrier). *)
+Inductive uop :=
+| UBuild (host : list byte) (port : N) (payload : list byte)
+| UParse (d : list byte).
+Inductive ures :=
+| RBuilt (datagram : list byte)
+| RParsed (r : option (N * list byte * N * list byte)).
+
+Definition run_uop (parse_ip : list byte -> option (list byte)) (o : uop) : ures :=
+  match o with
+  | UBuild h p pl => RBuilt (udp_build parse_ip h p pl)
+  | UParse d => RParsed (udp_parse udp_min_current d)
+  end.
+(* the results a consumer holds after the whole history has run *)
+Definition run_uops (parse_ip : list byte -> option (list byte)) (l : list uop) : list ures :=
+  map (run_uop parse_ip) l.
 Close Scope N_scope.
